@@ -4,6 +4,7 @@ pub mod c07;
 pub mod c10;
 pub mod c11;
 pub mod c12;
+pub mod c14;
 pub mod swapmon;
 pub mod twohop;
 
